@@ -1,12 +1,16 @@
 #!/bin/bash
 # gen/try_seeded.sh <patch.diff> <Cxx> [Cyy ...]   apply a seeded change to /repo, run the checks, undo it straight afterwards
+# With HT_REPO set (a snapshot of /repo, e.g. $VP_RUN_REPO inside `vp run --with-repo`) the patch goes to the snapshot and
+# the checks are pointed at it, so /repo stays free.
 P=$1; shift
-cd /repo || exit 2
-if ! git diff --quiet; then echo "/repo has uncommitted changes; refusing"; exit 2; fi
+R=${HT_REPO:-/repo}
+V=$(cd "$(dirname "$0")/.." && pwd)
+cd "$R" || exit 2
+if ! git diff --quiet; then echo "$R has uncommitted changes; refusing"; exit 2; fi
 git apply "$P" || { echo "patch does not apply"; exit 2; }
-trap 'git -C /repo checkout -- . ' EXIT
-cd /verif
-export HT_EVIDENCE_DIR=/verif/build/evidence_seeded   # trials never overwrite the evidence of the unchanged tree
+trap "git -C $R checkout -- . " EXIT
+cd "$V"
+export HT_EVIDENCE_DIR=$V/build/evidence_seeded   # trials never overwrite the evidence of the unchanged tree
 for c in "$@"; do
   out=$(VERIF_SEED=${VERIF_SEED:-20260930} ./check $c --tier ${TIER:-quick} 2>/dev/null | grep -v KNOWN-FINDING | tail -2 | tr '\n' ' ')
   fam=$(echo "$out" | grep -o 'replay=[^ ]*' | head -1 | cut -d= -f2 | xargs -r python3 -c 'import json,sys; j=json.load(open(sys.argv[1])); print("family=%s phase=%s" % (j.get("family"), j.get("phase")))' 2>/dev/null)
